@@ -40,7 +40,7 @@ CLAIMED = {
             "Channel-plan states reached by histories of LinkADRReq/NewChannelReq/DlChannelReq/CFList/set_datarate/ADR back-off bursts/join bias, five board (power, gain) combinations, three front-ends, nine regions; per state one uplink for each scripted RNG start value 0..127 and 16 from-scratch replays; join attempts incl. biases and re-joins.",
             "Regional tables (MaxEIRP, channel formulae, rate tables) transcribed from RP002; application precondition: set_datarate only to rates the mask leaves a channel for.", "6/C09"),
     "C10": ("exploration", "runtime monitor at the radio boundary: every RX1/RX2/Class C RfConfig and timer request compared with independent regional tables applied to the parameters in force (hook snapshot) and the TxConfig actually used",
-            "Grid of region x front-end x uplink DR x RX1DROffset x RxDelay class with RX2 overrides, DlChannel remaps, lead/TX-done times, all 72 fixed-plan channels via the scripted RNG, join attempts with forced join rates, and histories with parameter changes in flight.",
+            "Grid of region x front-end x uplink DR x RX1DROffset x RxDelay class with RX2 overrides, DlChannel remaps, lead/TX-done times, all 72 fixed-plan channels via the scripted RNG, join attempts with forced join rates, histories with parameter changes in flight, and re-joins after the old session moved RX2 / the RX1 offset (join windows and the new session's RX2 frequency judged against the regional defaults).",
             "Regional tables are transcriptions (set-valued where editions differ); parameters in force come from the verif-hooks snapshot.", "6/C10"),
     "C11": ("exploration", "runtime monitor: JoinRequest/JoinAccept judged by the reference codec and regional tables; state read through public API + snapshot; first uplink decoded under the derived keys",
             "Every DLSettings byte x region x front-end, RxDelay 0..255, CFList type 0/1/RFU with in-band/zero/out-of-band/random contents, delivery in RX1/RX2/never/after corrupted or wrong-key copies/after Class C noise, failed attempts first, re-join from joined.",
@@ -52,8 +52,8 @@ CLAIMED = {
             "For every shared operation and legal parameter value the SX126x wire transcripts (trailing NOPs trimmed) and the SX127x chip-visible outcome (final register file from a random prior, FIFO, IRQ clears) are compared; documented errata/structural divergences are mirrored on the reference side exactly as the drivers' comments/tests state.",
             "Oracle = vendor C driver; mirrors and uncompared registers listed in evidence assumptions; values the reference cannot express are counted, not compared.", "6/C13"),
     "C14": ("fault_enumeration", "runtime monitor with behavioural SPI-level chip models (SX126x, SX127x, own opcode/register constants) checking the four stated clauses where the bad state becomes observable; fault injection at every bus/busy/irq position; droppable futures dropped after every poll count; hook accessors for the driver's mode",
-            "All API sequences up to depth 4 (thorough: 5) over 17 symbols x chip outcomes {done, timeout, CRC/header error, spurious IRQ} x 4 chips, one run per SPI/BUSY/IRQ fault position (depth 2, thorough 3), wait_for_irq dropped after 0..15 polls with 7 continuations, Class A/C call orders through LorawanRadio with faults and drops.",
-            "Chip models written from the data sheets (what is lost on cold sleep/reset, what wakes the chip); double failures and continuous-RX errors exempt as the driver documents; get_rssi/process_irq_event on a sleeping chip are observations only.", "6/C14"),
+            "All API sequences up to depth 4 (thorough: 5) over 17 symbols x chip outcomes {done, timeout, CRC/header error, spurious IRQ} x 4 chips, one run per SPI/BUSY/IRQ fault position (depth 2, thorough 3), wait_for_irq dropped after 0..15 polls with 7 continuations, Class A/C call orders through LorawanRadio with faults and drops; a panic out of any call is a violation.",
+            "Chip models written from the data sheets (what is lost on cold sleep/reset, what wakes the chip); double failures and continuous-RX errors exempt as the driver documents; a cold sleep carried out by the driver counts as a loss of configuration on SX127x too (statement, clause b) although the chip keeps its registers; get_rssi/process_irq_event on a sleeping chip are observations only.", "6/C14"),
     "C15": ("exploration", "exhaustive differential runtime monitor: calculator and every driver's LDRO decision vs exact-rational 16.38 ms rule, plus the bit actually written on SPI decoded by an independent chip decoder",
             "All 8 SF x 10 BW cells x 6 chip variants x coding rates x two frequency bands, exhaustive in both tiers.",
             "One cell (SF8/15.6 kHz) is set-valued for the reference but must be identical across implementations; datasheet register/command layout for decoding the written bit.", "6/C15"),
@@ -69,8 +69,8 @@ CLAIMED = {
     "C19": ("exploration", "runtime monitor: independent per-field description (owned bits, admissible range, truncation rule, unit mapping) judges every set/build/parse round trip; text-form round trips; panic trap; Miri leg on the unsafe text code in thorough",
             "Exhaustive values for every field up to 16 bits (three scenarios: fresh, other fields pre-set, override), boundaries + random for wider ones, all 2^16 DevNonces, 10^5 values for each of 18 identifier/key types, variable-length creators, 300k command sequences through build_mac_commands.",
             "Field descriptions transcribed from LoRaWAN 1.0.4 / TS009 / TS005; set-valued where the statement allows refusal or truncation.", "6/C19"),
-    "C20": ("fault_enumeration", "crash-point enumeration with twin-run comparator: snapshot/restore (serde_json) after every step of every history, restored device run in lock-step with the original; structural mutation of documents with a panic-trapped operation battery",
-            "Histories of 4-12 transactions from chosen counters/ADR counters reaching empty/partial/full (15-byte) pending answers, owed ACK, fcnt_down None, 16-bit boundaries; after every step the document is round-tripped and installed in a second device (nb: fresh and in-place, async: new_with_session) that must emit byte-identical uplinks, identical downlink verdicts/payloads and identical documents for the rest of the history and a tail of replayed/stale/fresh downlinks; 12 classes of malformed documents.",
+    "C20": ("fault_enumeration", "crash-point enumeration with twin-run comparator: snapshot/restore (serde_json; also a positional postcard/bincode-like view of the document and a CBOR round trip) after every step of every history, restored device run in lock-step with the original; structural mutation of documents with a panic-trapped operation battery",
+            "Histories of 4-12 transactions from chosen counters/ADR counters reaching empty/partial/full (15-byte) pending answers, owed ACK, fcnt_down None, 16-bit boundaries; after every step the document is round-tripped and installed in a second device (nb: fresh and in-place, async: new_with_session) that must emit byte-identical uplinks, identical downlink verdicts/payloads and identical documents for the rest of the history and a tail of replayed/stale/fresh downlinks; every snapshot is also read back from a positional (field-sequence) view and from CBOR and compared field by field (Debug form); 12 classes of malformed documents.",
             "Unpersisted MAC configuration is restored by the application (data rate) or left at defaults; histories avoid LinkADRReq.", "6/C20"),
 }
 
